@@ -269,6 +269,10 @@ func init() {
 						if !take {
 							continue
 						}
+						if !inRound && name[0] == 'A' && seenKind[l.Kind] <= 1 {
+							// the deployed 4-public-value wrapper must reject the same tampering
+							cs = append(cs, fw.Case{ID: fmt.Sprintf("fixed/%s/%s/plus1", name, l.Path), Kind: "wc", P: map[string]any{"inst": name, "path": l.Path, "pert": "plus1", "leafkind": l.Kind, "wrapper": "fixed"}})
+						}
 						for _, pert := range c01Perts {
 							id := fmt.Sprintf("%s/%s/%s", name, l.Path, pert)
 							if inRound {
@@ -408,7 +412,12 @@ func init() {
 					if !changed {
 						return fw.Outcome{Trivial: true}
 					}
-					res := runVerifier(in, opt)
+					var res engine.Result
+					if c.Str("wrapper") == "fixed" {
+						res = harnRunOpt(opt, in.CircuitFixed().Define)
+					} else {
+						res = runVerifier(in, opt)
+					}
 					if v, bad := mustReject(res, c.Str("leafkind")+":"+c.Str("pert")); bad {
 						return v
 					}
